@@ -5,7 +5,9 @@
   the block on disk must be exactly the signed block (same bytes, same length), and past the signed
   block count nothing may be there at all.  Consumers read in 32 KiB slices starting at block-aligned
   offsets, so a request for `[off, off+len)` validates every block it touches, plus — when the request
-  reaches or passes the end of the file on disk — the block at the end-of-file position (the EOF probe).
+  reaches PAST the end of the file on disk — the block at the end-of-file position (the EOF probe: the reader
+  comes back for more).  A request that ends exactly at the end of the disk file is served without a further
+  read (`io.LimitReader` / `io.ReadFull` stop once they have their bytes), so nothing is probed then.
 -/
 import Wharf.Model.Patch
 import Wharf.Model.Rsync
@@ -32,7 +34,7 @@ def skRead (bs : Nat) (signed disk : List Byte) (off len : Nat) : Outcome (List 
     if n = 0 then true
     else blocksValid bs signed disk (off / bs) ((off + n - 1) / bs - off / bs + 1)
   let probe : Bool :=
-    if off + len ≥ disk.length then blockValid bs signed disk ((max off disk.length) / bs) else true
+    if off + len > disk.length then blockValid bs signed disk ((max off disk.length) / bs) else true
   if touched && probe then .ok ((disk.drop off).take len) else .err "safekeeper: block does not match the signature"
 
 /-- reading the whole file until EOF (`io.Copy`): every block that holds data is validated, and so is the
